@@ -422,31 +422,8 @@ func ruleGuardScoped(c *Ctx, keep func(string) bool) {
 				"struct field written outside a constructor with no mutex held, not inside sync.Once.Do, and not in the reviewed table: a concurrent reader or writer races with it", nil)
 		}
 	}
-	// (iii) id counters are touched only through sync/atomic
-	nIds := 0
-	for _, f := range p.Funcs {
-		info := f.Pkg.TypesInfo
-		acc := p.fieldAccesses(f, func(v *types.Var) bool { return v.IsField() && v.Name() == "nextId" })
-		for _, a := range acc {
-			nIds++
-			ok := false
-			if u, isU := p.Parent(a.sel).(*ast.UnaryExpr); isU && u.Op == token.AND {
-				if call, isC := p.Parent(u).(*ast.CallExpr); isC && strings.HasPrefix(p.CalleeName(f, call), "sync/atomic.") {
-					ok = true
-				}
-			}
-			_ = info
-			fn := p.FieldName(a.fv)
-			if ok {
-				c.R.Hold("R-GUARD/atomic", p.Pos(a.sel), f.Name, fn+" via sync/atomic", "address passed to a sync/atomic function", true)
-			} else {
-				c.R.Violate("R-GUARD/atomic", p.Pos(a.sel), f.Name, fn+" via sync/atomic", "the id counter is accessed other than through sync/atomic: concurrent NextId calls can return the same id", nil)
-			}
-		}
-	}
-	if nIds < 2 {
-		c.R.Undecided("R-GUARD/atomic", "", "instance-floor", "id counters not found")
-	}
+	// (iii) id counters: atomic add only, NextId returns its own increment
+	atomicIDs(c)
 	c.R.Floor("R-GUARD", 60)
 }
 
